@@ -178,7 +178,55 @@ def r11_3(ctx):
     ctx.ob("R11.3", "utf8-validate-is-from_utf8", "from_utf8(p1).is_ok()" in blob, "UTF8::validate(buf) = str::from_utf8(buf).is_ok()")
 
 
+def r11_6(ctx):
+    """futf (character boundaries of pop_front_char / char-run pops): byte classes and decode thresholds are UTF-8's"""
+    from lib.flat import Config, explore, run_body, showv
+    its = [it for it in ctx.ast.crates["tendril"] if it["k"] == "Fn" and it["name"] == "classify" and (it.get("self_ty") or "").strip() == "Byte" and it.get("body") is not None]
+    if len(its) != 1:
+        raise AnchorMissing("futf::Byte::classify not found")
+    it = its[0]
+    pname = [p["pat"]["name"] for p in it["sig"]["params"] if p.get("name") != "self"][0]
+    want = lambda v: "Some(Ascii)" if v < 0x80 else "Some(Cont)" if v < 0xC0 else "Some(Start(2))" if v < 0xE0 else "Some(Start(3))" if v < 0xF0 else "Some(Start(4))" if v < 0xF8 else "None"
+    bad = None
+    for v in range(256):
+        cfg = Config(acquire={}, primitives=set(), inline={}, guards=set(), samples=[], accessors=set(), full_call_text=True, generic_loops=True, consts={})
+        paths = explore(cfg, lambda run, v=v: run_body(run, it["body"], {pname: v}))
+        outs = {showv(p["outcome"][1]) if len(p["outcome"]) > 1 else str(p["outcome"]) for p in paths}
+        if outs != {want(v)} and bad is None:
+            bad = "byte 0x%02X is classified %s, UTF-8 says %s" % (v, sorted(outs), want(v))
+    ctx.ob("R11.6", "futf-byte-classes", bad is None, bad or "the table of Byte::classify over all 256 byte values (extracted by partial evaluation of the syntax tree) is UTF-8's: 00-7F ASCII, 80-BF continuation, C0-DF / E0-EF / F0-F7 lead of 2 / 3 / 4, F8-FF invalid",
+           "tendril futf.rs Byte::classify")
+    key, pcs = nfq.cells(ctx, "tendril_decode", "futf::decode")
+    facts = {2: False, 3: False, 4: False}
+    probs = []
+    for pc in nfq.feasible(pcs):
+        g = pc["guards"]
+        ln = [int(k.rsplit(" ", 1)[1]) for k, v in g.items() if v and re.fullmatch(r"p1\.len\(\) matches [234]", k)]
+        if not ln:
+            continue
+        ln = ln[0]
+        txt = " ".join(g) + " " + str(pc["ret"])
+        mask = {2: "& 31) as u32) << 6", 3: "& 15) as u32) << 12", 4: "& 7) as u32) << 18"}[ln]
+        if mask not in txt:
+            probs.append("length %d: lead byte mask/shift is not %s" % (ln, mask))
+        if txt.count("& 63)") < 1:
+            probs.append("length %d: continuation bytes are not masked with 0x3F" % ln)
+        thr = {2: ["< 128)"], 3: ["0..=2047", "55296..=56319", "56320..=57343"], 4: ["< 65536)"]}[ln]
+        if any(t in txt for t in thr):
+            facts[ln] = True
+        if str(pc["ret"]).startswith("from_u32(") and "map(" not in str(pc["ret"]):
+            probs.append("length %d: the scalar value is not checked by char::from_u32" % ln)
+    allthr = " ".join(" ".join(pc["guards"]) for pc in pcs)
+    for t in ("< 128)", "0..=2047", "55296..=56319", "56320..=57343", "< 65536)"):
+        if t not in allthr:
+            probs.append("threshold %s is missing" % t)
+    ctx.ob("R11.6", "futf-decode-thresholds", not probs and all(facts.values()), "; ".join(probs) or "overlong forms (< 0x80, < 0x800, < 0x10000) rejected, surrogates D800-DBFF / DC00-DFFF reported as such, the rest through char::from_u32",
+           "tendril futf.rs decode")
+
+
 def run(ctx):
+    ctx.rule("R11.6", "futf: byte classes over all 256 values and the decode thresholds are UTF-8's")
+    ctx.guard("R11.6", "futf", lambda: r11_6(ctx))
     ctx.rule("R11.1", "every write into heap storage is preceded by make_owned* (or targets a buffer created in the same function)")
     ctx.rule("R11.1b", "every set_len site belongs to a reviewed class (grow after own, shrink, unshared clear)")
     ctx.rule("R11.2", "safe methods reach unchecked primitives only after the bounds test and F::validate*; the primitives are unsafe fns")
